@@ -51,6 +51,23 @@ macro_rules! define_hasher {
             }
         }
 
+        /// Verification hooks (cfg cryptocorrosion_verif): read / overwrite the byte counter, read the chaining value.
+        #[cfg(cryptocorrosion_verif)]
+        impl $name {
+            pub fn verif_set_counter(&mut self, bytes: usize) {
+                self.datalen = bytes;
+            }
+            pub fn verif_counter(&self) -> usize {
+                self.datalen
+            }
+            pub fn verif_chain(&self) -> [u8; 128] {
+                self.state.finalize()
+            }
+            pub fn verif_buffer_pos(&self) -> usize {
+                self.buffer.position()
+            }
+        }
+
         impl digest::BlockInput for $name {
             type BlockSize = U64;
         }
